@@ -353,6 +353,7 @@ ID_SCHEMES = [
 ]
 NODE_POOLS = [["st0", "st1", "st2"], ["st1", "st10", "st100"], ["p", "p\"q", "p,q"], ["n", "n1", "n12"]]
 DEL_IDS = ["primary", "prim", "primary-2", 'd"x', "d"]
+CBM_ID = "CBM"          # the id props/c14.py gives the combined model
 
 
 def gen_family(rng, k):
@@ -368,7 +369,13 @@ def gen_family(rng, k):
         se = None
         if len(st) >= 2 and rng.random() < 0.5:
             se = (st[0], st[1], {"Class": "connects", "Name": "x-" + nm if rng.random() < 0.5 else "x"})
-        spec = gen_site(rng, nm, st, del_id=rng.choice(DEL_IDS + ["d" + nm]), shared_edge=se)
+        # the delegation id is an opaque string ("can be graph id or a unique string"): besides names that differ from every
+        # graph id, ids that COINCIDE - the model's own graph id (what rewrite_delegations() leaves: a model that was re-keyed
+        # before), another model's graph id, the combined model's id
+        r = rng.random()
+        did = (gids[i] if r < 0.2 else gids[(i + 1 + rng.randrange(len(gids) - 1)) % len(gids)] if r < 0.3 else CBM_ID if r < 0.35
+               else rng.choice(DEL_IDS + ["d" + nm]))
+        spec = gen_site(rng, nm, st, del_id=did, shared_edge=se)
         spec["id"] = gids[i]
         if rng.random() < 0.15:
             # a shared *non-stitch* element with delegations on both sides (conflict) or on neither
@@ -387,21 +394,22 @@ def gen_raw_family(rng, k):
     ids = rng.choice(RAW_NODE_IDS)
     fam = []
     for j in range(k):
-        spec = gen_raw(rng, "r%d" % j, ids)
+        spec = gen_raw(rng, "r%d" % j, ids, dids=[gids[j], gids[(j + 1) % len(gids)], CBM_ID])
         spec["id"] = gids[j]
         fam.append(spec)
     return fam
 
 
-def gen_raw(rng, name, ids, nmax=5):
-    """Small arbitrary models over a tiny id pool (maximises sharing, shared edges, subset/equal models)."""
+def gen_raw(rng, name, ids, nmax=5, dids=()):
+    """Small arbitrary models over a tiny id pool (maximises sharing, shared edges, subset/equal models).
+    `dids`: graph ids (own, a sibling's, the combined model's) that are also used as delegation ids."""
     k = rng.randrange(1, nmax + 1)
     chosen = rng.sample(ids, min(k, len(ids)))
     nodes = []
     for nid in chosen:
         r = rng.random()
-        cd = {rng.choice(["p", "q", "pq"]): canon_details({"pool_id": "_", "capacities": {"unit": rng.randrange(1, 3)}})} if r < 0.35 else None
-        ld = {rng.choice(["p", "q"]): canon_details({"pool_id": "_", "labels": {"vlan_range": "1-%d" % rng.randrange(2, 4)}})} if rng.random() < 0.2 else None
+        cd = {rng.choice(["p", "q", "pq"] + list(dids)): canon_details({"pool_id": "_", "capacities": {"unit": rng.randrange(1, 3)}})} if r < 0.35 else None
+        ld = {rng.choice(["p", "q"] + list(dids)): canon_details({"pool_id": "_", "labels": {"vlan_range": "1-%d" % rng.randrange(2, 4)}})} if rng.random() < 0.2 else None
         nodes.append([nid, {"Class": rng.choice(["NetworkNode", "ConnectionPoint"]), "Name": rng.choice([nid, name]),
                             "StitchNode": rng.choice(["true", "false"])}, ld, cd])
     edges, seen = [], set()
@@ -445,10 +453,30 @@ def _lab(did, pool=None, ref=False):
     return {did: canon_details({"pool_id": pool or "_", "labels": {"vlan_range": "10-20"}})}
 
 
+def coinciding_family():
+    """Delegation ids that COINCIDE with graph ids: k1 names its delegations after itself (on a private and on a shared element; what
+    rewrite_delegations() without argument leaves behind), k2 after the OTHER model k1, k3 after the combined model, k4 uses the
+    same delegation id as k2 and is a model re-keyed to its own id whose id is a prefix of k1's."""
+    E = {"Class": "connects"}
+    k1 = {"id": "adm-k1", "nodes": [_n("hub", ld=_lab("adm-k1")), _n("k1", ld=_lab("adm-k1", pool="lp"), cd=_cap("adm-k1"))],
+          "edges": [["hub", "k1", dict(E)]]}
+    k2 = {"id": "adm-k2", "nodes": [_n("hub", cd=_cap("adm-k1")), _n("k2", cd=_cap("adm-k1", pool="cp", ref=True))],
+          "edges": [["hub", "k2", dict(E)]]}
+    k3 = {"id": "adm-k3", "nodes": [_n("k3", ld=_lab(CBM_ID), cd=_cap(CBM_ID)), _n("hub")], "edges": [["k3", "hub", dict(E)]]}
+    k4 = {"id": "adm-k", "nodes": [_n("k4", ld=_lab("adm-k"), cd=_cap("adm-k")), _n("k2", ld=_lab("adm-k"))], "edges": [["k4", "k2", dict(E)]]}
+    return [normalise_spec(x) for x in (k1, k2, k3, k4)]
+
+
 def corner_cases():
     """[(name, family, ops)] - the situations an adversarial reviewer would try first."""
     E = {"Class": "connects"}
     out = []
+    # ids that coincide: the delegations of a model are keyed by ITS id in the combined model whatever they were called inside
+    fam = coinciding_family()
+    for perm in ((0, 1, 2, 3), (3, 2, 1, 0), (1, 0, 3, 2)):
+        out.append(("coinciding-ids:%s" % "".join(map(str, perm)), fam,
+                    [("merge", j) for j in perm] + [("snapshot",), ("unmerge", perm[1]), ("unmerge", perm[0]), ("rollback", 0), ("unmerge", perm[3])]))
+    out.append(("coinciding-ids:alone", fam, [("merge", 0), ("unmerge", 0), ("merge", 3), ("merge", 0), ("unmerge", 3), ("unmerge", 0)]))
     # three models sharing one element; unmerge of the middle one, of the first one, then the rest
     a = {"id": "adm-1", "nodes": [_n("hub", Model="one"), _n("a1", cd=_cap("primary"))], "edges": [["hub", "a1", dict(E)]]}
     b = {"id": "adm-2", "nodes": [_n("hub", ld=_lab("d2"), Model="two"), _n("b1")], "edges": [["hub", "b1", dict(E)]]}
@@ -547,9 +575,15 @@ def describe(count, family, ops, cbm_sizes=None):
             nsnap += 1
         elif op[0] == "rollback":
             count("case:rollback:%s" % ("existing-index" if op[1] < nsnap else "no-such-snapshot"))
+    gids = {s["id"] for s in family}
     for s in family:
         for n in s["nodes"]:
             ld, cd = n[2], n[3]
+            for d in (ld, cd):
+                if isinstance(d, dict):
+                    for did in d:
+                        count("delegation-id:" + ("own-graph-id" if did == s["id"] else "other-model's-graph-id" if did in gids
+                                                  else "combined-model's-id" if did == CBM_ID else "differs-from-graph-ids"))
             kind = ("both" if ld and cd else "label-only" if ld else "capacity-only" if cd else None)
             if kind:
                 count("node:delegation:" + kind)
